@@ -17,6 +17,7 @@ import TboxModel.C17.BaseProofs
 import TboxModel.C17.InvProofs
 import TboxModel.C17.SeqProofs
 import TboxModel.C17.ExecProofs
+import TboxModel.C17.Sim7
 namespace Tbox.C17
 
 /-! ## Layer 1 — one action, every call sequence
@@ -288,6 +289,41 @@ theorem C17_repeat_zero_means_forever :
     eval (comp 0 (.repeat_ 0 .noBreak) [leaf 1 (.func true none)]) = none := by
   decide +kernel
 
+/-! ## The whole-tree theorem (item 2), by simulation through the deferred queue
+
+Route: (a) a loop pass with one queued task is `runTask` (`runQueue_one`); (b) the run of the one active
+child embeds into its parent while everything else is inert (`step_embed`, `runU_embed`); (c) a generic
+theorem for serial composites over a per-kind specification (`gen`, `KSpec`) with the kinds Wrapper,
+Composite, IfElse, IfThen, Switch, Sequence instantiated; (d) structural induction over the tree (`good_all`). -/
+
+/-- **`C17_result_matches_doc`, closed milestones M1 (synchronous leaves) and M2 (delayed leaves) for the
+serial composites Sequence (all modes, any number of children), IfElse, IfThen (any number of pairs),
+Switch, Wrapper (all modes) and Composite, nested arbitrarily, over FunctionAction and SleepAction leaves, no timeouts**: start the freshly
+built tree, then ANY sequence of loop passes and clock steps.  If the evaluator assigns the result `r`,
+the observable trace — calls of the leaf functions (`inl id`) and finish notifications of the root
+(`inr (is_succ, reason)`) — is either a prefix of the evaluator's visit order (still under way), or the
+complete visit order followed by exactly ONE finish notification, carrying `r`.  In particular the root
+never finishes twice, never with another result, and no leaf is called out of the documented order. -/
+theorem C17_result_matches_doc_serial (t : T) (hs : SerOk t = true) (hc : Clean t = true) (ops : List Op)
+    (hcf : ops.all cfOp = true) (r : Bool × Nat) (hr : eval t = some r) :
+    (∃ pfx, pfx <+: visit t ∧ trOf (run t {} (.calls [.start] :: ops)).2.log = pfx.map Sum.inl) ∨
+    trOf (run t {} (.calls [.start] :: ops)).2.log = (visit t).map Sum.inl ++ [Sum.inr r] :=
+  result_matches_doc_run t hs hc ops hcf r hr
+
+/-- a covered tree: Sequence[ F1(succ), IfElse(F3 fail ? F4 : Sleep5), Wrapper-invert(F7 fail) ] -/
+def docTree : T :=
+  comp 0 (.seq .anyFail) [leaf 1 (.func true none),
+    comp 2 (.ifElse true true) [leaf 3 (.func false none), leaf 4 (.func true none), leaf 5 (.sleep 111)],
+    comp 6 (.wrapper .invert) [leaf 7 (.func false none)]]
+
+example : SerOk docTree = true ∧ Clean docTree = true ∧ eval docTree = some (true, 2) ∧ visit docTree = [1, 3, 7] := by
+  decide +kernel
+/-- … and the run really gets there (liveness on this instance); one pass earlier it is a strict prefix -/
+example : trOf (run docTree {} [.calls [.start], .pass, .adv 200, .pass, .pass, .pass]).2.log = [Sum.inl 1, Sum.inl 3, Sum.inl 7] := by
+  decide +kernel
+example : trOf (run docTree {} [.calls [.start], .pass, .pass, .adv 200, .pass, .pass, .pass, .pass, .pass]).2.log =
+    [Sum.inl 1, Sum.inl 3, Sum.inl 7, Sum.inr (true, 2)] := by decide +kernel
+
 /-! ## ActionExecutor (action_executor.cpp; model Exec.lean, repaired code of patches/C17-06)
 
 `Exec.xrun {} ops` is the state after ANY list of executor operations: append of an action (dummy /
@@ -313,15 +349,19 @@ example : (Exec.xrun {} [.append .dummy 2, .append .dummy 2, .append .dummy 0, .
 
 /-! ### OPEN (stated, not proved; carried by the executable model + correspondence + monitors)
 
--- OPEN C17_result_matches_doc: for every tree `t` with `evalOk t`, leaves that finish synchronously or
---   after delays and no control call, `run t {} (start :: passes)` delivers exactly one root
---   notification, equal to `eval t`, and the leaf-start events are in the evaluator's visit order.
---   Proved: the control flow of SequenceAction against the documented loop, any number of children
---   (`C17_result_matches_doc_sequence`), and that what ends a run is well-formed (`C17_tree_inv`).
---   Not proved: the same for the other composites and the composition through the queue (a big-step
---   simulation: one pending task / armed timer at a time for serial trees, interleaving by pass for
---   ParallelAction).  The driver compares every generated control-free run (all composites, all
---   modes) with `eval`.
+-- OPEN C17_result_matches_doc, remaining milestones (closed: `C17_result_matches_doc_serial`):
+--   * liveness for the covered class ("the complete trace IS reached"): for synchronous leaves after
+--     size-many passes, for sleeps once the clock has passed the sum of the delays.  Missing lemma: a
+--     measure on `Good` runs (each op with the child done delivers; `runU` returns a strict suffix).
+--   * M4 Loop / LoopIf / Repeat: `gen` assumes `resets = []`.  Missing: (i) `KSpec`/`gen` with reset lists,
+--     using `reset_wf` (a reset child is `Clean`); (ii) shape preservation — `eval`/`visit`/`Good` depend on
+--     the static skeleton only, so `Good` must be stated for every `Clean` tree with the skeleton of the
+--     original child; (iii) for non-terminating loops the statement per finite prefix.
+--   * M1/M3 ParallelAction: several children are active at once, so `AP` (at most one queued task) fails.
+--     Missing: the locality lemma for `runTask` under "all queued run ids are distinct and below `nextId`"
+--     (a new invariant of `step`), and the interleaving statement (children advance in lockstep per pass).
+--   * timeouts (`tmo ≠ none`) and DummyAction leaves are outside the evaluator's domain.
+--   The driver still compares every generated control-free run (all composites, all modes) with `eval`.
 -- OPEN C17_reset_bisim: after `reset` every later op sequence produces the same observable trace as on
 --   the freshly built tree (equal up to run ids and the dead fields).  Proved: `Clean` + `WF` of the
 --   reset tree (`C17_reset_fresh`); the driver's differential runs contain reset-then-rerun histories.
